@@ -22,5 +22,5 @@ for c in m['checks']:
     flag = '' if o == d else '  <-- discharged != obligations'
     if o != d:
         ok = False
-    print('%s obligations=%s discharged=%s tree=%s%s' % (c['property_id'], o, d, e.get('repo_head', e.get('tree', '?')), flag))
+    print('%s obligations=%s discharged=%s tree=%s%s' % (c['property_id'], o, d, cov.get('repo_head', '?'), flag))
 sys.exit(0 if ok else 1)
